@@ -86,6 +86,31 @@ func newNativeBuilder(harnessByPkg map[string][]string) (*nativeBuilder, error) 
 			return nil, err
 		}
 		repl[filepath.Join(repoDir, pkg, "zz_sv_replay_test.go")] = real
+		// the repository's own test files of that package are not needed in the
+		// replay binary (some no longer compile): replace each by its package clause
+		ents, _ := os.ReadDir(filepath.Join(repoDir, pkg))
+		for _, e := range ents {
+			if !strings.HasSuffix(e.Name(), "_test.go") {
+				continue
+			}
+			src, err := os.ReadFile(filepath.Join(repoDir, pkg, e.Name()))
+			if err != nil {
+				continue
+			}
+			clause := ""
+			for _, line := range strings.Split(string(src), "\n") {
+				if strings.HasPrefix(line, "package ") {
+					clause = line
+					break
+				}
+			}
+			if clause == "" {
+				continue
+			}
+			stub := filepath.Join(tmp, strings.ReplaceAll(pkg, "/", "_")+"_"+e.Name())
+			os.WriteFile(stub, []byte(clause+"\n"), 0o644)
+			repl[filepath.Join(repoDir, pkg, e.Name())] = stub
+		}
 	}
 	b, _ := json.Marshal(map[string]interface{}{"Replace": repl})
 	nb.ovJSON = filepath.Join(tmp, "overlay.json")
@@ -135,7 +160,7 @@ func (nb *nativeBuilder) binary(pkg string) (string, error) {
 	}
 	t0 := time.Now()
 	out := filepath.Join(nb.tmp, strings.ReplaceAll(pkg, "/", "_")+".test")
-	cmd := exec.Command("go", "test", "-c", "-vet=off", "-overlay", nb.ovJSON, "-o", out, "./"+pkg)
+	cmd := exec.Command("go", "test", "-c", "-vet=off", "-ldflags=-checklinkname=0", "-overlay", nb.ovJSON, "-o", out, "./"+pkg)
 	cmd.Dir = repoDir
 	cmd.Env = goEnv()
 	var buf bytes.Buffer
